@@ -204,7 +204,7 @@ fn clean_query(rng: &mut Rng) -> String {
     } else if rng.chance(1, 4) {
         // the query is taken over as it stands: '/' and '?' are data there, so are sub-delims and encoded octets
         // (the apostrophe is left to a workload of its own in C14)
-        format!("?{}", rng.pick(&["a=b&c=d", "q=%20x", "next=/y?z", "p=a+b", "k=;:@!$()*,", "e=%C3%A9&f=%c3%a9", "=", "&&"]))
+        format!("?{}", rng.pick(&["a=b&c=d", "q=%20x", "next=/y?z", "p=a+b", "k=;:@!$()*,", "e=%C3%A9&f=%c3%a9", "=", "&&", "via=mail,https://c.test/x", "u=a,http://b.test/p?q,//c.example/"]))
     } else {
         format!("?{}={}", rng.pick(&["a", "k", "page"]), rng.below(50))
     }
@@ -234,10 +234,12 @@ pub fn clean_location(rng: &mut Rng, original: &UriRef) -> (&'static str, String
             // a host that merely starts with the original host, or is a prefix of it
             let sc = scheme_of(original);
             let oh = host_of(original);
-            let h = match rng.below(4) {
+            let h = match rng.below(5) {
                 0 => format!("{}.evil.example", oh),
                 1 => format!("{}ing", oh),
                 2 => format!("{}-cdn.example", oh),
+                // the fully qualified spelling is another host string: "equals" is what the statement says
+                3 => format!("{}.", oh),
                 _ => oh[..oh.len() - 1].to_string(),
             };
             ("abs-host-in-prefix-relation", format!("{}://{}{}{}", sc, h, clean_path(rng), clean_query(rng)))
